@@ -153,7 +153,9 @@ func (h *Sources) Redo() {
 
 	line.pos--
 
+	// Nothing (more) to redo.
 	if line.pos < 1 {
+		line.pos = 0
 		return
 	}
 
